@@ -40,6 +40,7 @@ PROGRAM_CFG = {
     'effects': ['out', 'status'],
     'kwargs': True,
     'raw_kill': True,
+    'p_required_output': 0.25,
     'p_async': 0.3,
     'max_awaits': 1,
 }
